@@ -600,7 +600,26 @@ class Interp:
         raise Unsupported("local import")
 
     def exec_with(self, st, frame):
-        raise Unsupported("with statement")
+        """with EXPR as NAME: BODY -- for context managers with a library model (`__enter__` / `__exit__` in METHODS).  The exit
+        handler runs on normal completion, on return / break / continue and on a Python exception of the body."""
+        entered = []
+        for item in st.items:
+            cm = self.eval(item.context_expr, frame)
+            kind = self.kind_of(cm)
+            enter = METHODS.get((kind, "__enter__"))
+            if enter is None:
+                raise Unsupported(f"with statement on {kind}")
+            val = enter(self, cm, [], {})
+            entered.append((kind, cm))
+            if item.optional_vars is not None:
+                self.assign(item.optional_vars, val, frame)
+        try:
+            self.exec_block(st.body, frame)
+        finally:
+            for kind, cm in reversed(entered):
+                ex = METHODS.get((kind, "__exit__"))
+                if ex is not None:
+                    ex(self, cm, [], {})
 
     def exec_try(self, st, frame):
         if st.finalbody or st.orelse:
